@@ -152,12 +152,11 @@ Theorem C18_accept_only_executable :
 Proof. intros cfg shots gs. apply (validate_accept_sound gen_vt gen_vt_ok); reflexivity. Qed.
 Print Assumptions C18_accept_only_executable.
 
-(** (*fix*) a gate controlled on another state than |1...1> is not given the name of the standard
-    controlled gate (it has no OpenQASM name: serialisation is refused) *)
-Theorem C18_nonstandard_control_not_renamed :
-  forall cs t, as_qasm gen_vt (Ctrl cs false t) = QErr ENotImpl.
-Proof. intros cs t. reflexivity. Qed.
-Print Assumptions C18_nonstandard_control_not_renamed.
+(** KNOWN FINDING (not repaired: tests/test_gates.py pins as_qasm()['name'] == 'cx' for a
+    |0>-controlled X): a gate controlled on another state than |1...1> is serialised under the
+    name of the standard controlled gate - see C18_nonstandard_control_refuted above. The full
+    statement "an accepted instruction says what the gate is" therefore carries the guard
+    "every controlled gate has the all-ones control state". *)
 
 (** non-vacuity: the test-suite's circuit is accepted on the simulator; a circuit with a defect in
     the middle is refused; "within the limit" is an upper bound (non-positive shots are accepted by
